@@ -28,6 +28,12 @@ class C01Facade(Harness):
             combos += [(g, spec, wk, True, None) for g in ((4, 1), (4, 2)) for spec in ("edges", "pairs") for wk in ("none", "int")]
             combos += [(g, spec, wk, keep, dt) for g in ((1, 1), (2, 2)) for spec in ("edges", "pairs") for wk in ("none", "int", "real") for keep in (True, False)
                        for dt in ("float64", "int64", "float32")]
+        # fixed-width binning objects / the "fixed_width" method with an explicit range (right edge flag False by default)
+        for spec in ("fwb", "fixed_range"):
+            for (n, m) in ([(1, 1), (2, 2)] if tier == "quick" else [(1, 1), (2, 2), (3, 2), (2, 3)]):
+                for wk in ("none", "real") if tier == "quick" else ("none", "int", "real"):
+                    for width in ((1.0,) if tier == "quick" else (1.0, 0.5)):
+                        yield (f"h1-N{n}-M{m}-{spec}-w{wk}-bw{width}", dict(N=n, M=m, spec=spec, weights=wk, keep_missed=True, dtype=None, nan=(n <= 2), width=width))
         for (n, m), spec, wk, keep, dt in combos:
             yield (f"h1-N{n}-M{m}-{spec}-w{wk}-k{int(keep)}-d{dt}",
                    dict(N=n, M=m, spec=spec, weights=wk, keep_missed=keep, dtype=dt, nan=(n <= 2)))
@@ -51,7 +57,9 @@ class C01Facade(Harness):
             x["w"] = cx.reals("w", N)
             if cx.sym:
                 cx.assume(*[w >= 0 for w in x["w"]])
-        if p["spec"] == "edges":
+        if p["spec"] in ("fwb", "fixed_range"):
+            x["t"] = cx.pyint("t", -3, 3)
+        elif p["spec"] == "edges":
             x["e"] = cx.reals("e", M + 1)
             if cx.sym:
                 cx.assume(*[x["e"][j] < x["e"][j + 1] for j in range(M)])
@@ -87,12 +95,17 @@ class C01Facade(Harness):
             if isinstance(h, Raised):
                 return {"raised": h}
             return snap1d(E, h, stats=True)
-        if p["spec"] == "edges":
+        kw = {}
+        if p["spec"] == "fwb":
+            bins = E.mod("physt.binnings").FixedWidthBinning(bin_width=p["width"], bin_count=p["M"], bin_times_min=x["t"])
+        elif p["spec"] == "fixed_range":
+            bins = "fixed_width"
+            kw.update(bin_width=p["width"], range=(x["t"] * p["width"], (x["t"] + p["M"]) * p["width"]))
+        elif p["spec"] == "edges":
             bins = np.asarray(x["e"])
         else:
             pairs = [[l, r] for l, r in zip(x["l"], x["r"])]
             bins = np.asarray(pairs) if p["spec"] == "pairs" else E.mod("physt.binnings").StaticBinning(pairs)
-        kw = {}
         if "w" in x:
             kw["weights"] = x["w"]
         if p["dtype"]:
@@ -111,7 +124,11 @@ class C01Facade(Harness):
         v = [cx.t(i) for i in x["v"]]
         nan = [cx.isnan(i) for i in x["v"]]
         w = [cx.t(i) for i in x["w"]] if "w" in x else [z3.IntVal(1)] * N
-        if p["spec"] == "edges":
+        if p["spec"] in ("fwb", "fixed_range"):
+            wd = z3.RealVal(str(p["width"]))
+            e = [(z3.ToReal(cx.t(x["t"])) + j) * wd for j in range(M + 1)]
+            L, R = e[:-1], e[1:]
+        elif p["spec"] == "edges":
             e = [cx.t(i) for i in x["e"]]
             L, R = e[:-1], e[1:]
         else:
